@@ -25,7 +25,7 @@ RULE = ("case = (configuration, steering history, storage mode, stop s, composit
         "uninterrupted run's result for the same global iteration (1e-10 relative); non-trivial = execution in which some "
         "restart saw a listing that is not in ascending order (distinct (case, listing orders) are counted)")
 ASSUMPTIONS = ["N <= 3 (quick) / 4 (thorough) iterations; restarts happen at iteration boundaries (as in the statement)",
-               "restart_iteration=-1 (default); the same calculators and grid are passed to every segment",
+               "restart_iteration=-1 (default) for the chains; explicit restart_iteration=k (every k < N, every length) after a finished run; the same calculators and grid are passed to every segment",
                "the directory listing is modelled as an arbitrary permutation of the existing files (glob.glob makes no order promise)"]
 
 TOL = 1e-10
@@ -87,7 +87,7 @@ class GlobSeam:
         return getattr(_glob, name)
 
 
-def run_segment(cfg, seed, hist, mode, d, adpt_num_iter, restart, chooser=None):
+def run_segment(cfg, seed, hist, mode, d, adpt_num_iter, restart, chooser=None, restart_iteration=-1):
     import wannierberri as wb
     from wannierberri import run_grid
     system = c10.get_system(cfg["sys"], seed)
@@ -95,17 +95,36 @@ def run_segment(cfg, seed, hist, mode, d, adpt_num_iter, restart, chooser=None):
     calc = refine.SteerCalc(prio_table=refine.prio_table(hist), salt=seed, rank=cfg["rank"])
     kw = dict(adpt_num_iter=adpt_num_iter, adpt_mesh=cfg["mesh"], adpt_fac=cfg["fac"], use_irred_kpt=cfg["irred"],
               symmetrize=cfg["irred"], parallel=False, fout_name=os.path.join(d, "res"),
-              file_Klist_path=os.path.join(d, "klist"), restart=restart)
+              file_Klist_path=os.path.join(d, "klist"), restart=restart, restart_iteration=restart_iteration)
     kw["allow_restart" if mode == "allow_restart" else "dump_results"] = True
     seam = GlobSeam(chooser) if chooser is not None else None
     old = run_grid.glob
     if seam is not None:
         run_grid.glob = seam
+    del refine.SNAPSHOTS[:]
     try:
         res = wb.run(system, grid, {"scr": calc}, **kw)
     finally:
         run_grid.glob = old
+    LAST_SNAPSHOTS[:] = list(refine.SNAPSHOTS)
     return np.array(res.results["scr"].data), (seam.orders if seam else [])
+
+
+LAST_SNAPSHOTS = []
+
+
+def snapshots_consistent(cfg, seed):
+    """C10's oracle on the snapshots of the last segment: integral == sum_K factor_K * R(K) over run()'s live K-list"""
+    system = c10.get_system(cfg["sys"], seed)
+    for it, snap, data in LAST_SNAPSHOTS:
+        if snap is None:
+            continue
+        exp, scale = c10.expected(cfg, seed, snap, system)
+        err = np.abs(data - exp).max() / scale
+        if not err <= 1e-10:
+            return ("integral_inconsistent_with_K_list", f"iteration {it}: integral {np.ravel(data)} != sum_K factor*R(K) {np.ravel(exp)} "
+                                                        f"(rel {err:.3g}, weights sum {sum(f for _, f, _ in snap)!r})")
+    return None
 
 
 _REF = {}
@@ -129,9 +148,40 @@ def cases(tier, seed):
             for s in range(cfg["N"]):
                 for comp in compositions(cfg["N"] - s):
                     yield {"cfg": cfg, "mode": mode, "stop": s, "comp": list(comp)}
+            # restart from an intermediate iteration k of a finished N-iteration run (restart_iteration=k)
+            for k in range(cfg["N"]):
+                for m in range(1, cfg["N"] - k + 1):
+                    yield {"cfg": cfg, "mode": mode, "intermediate": k, "m": m}
+
+
+def execute_intermediate(case, seed):
+    cfg, mode, k, m = case["cfg"], case["mode"], case["intermediate"], case["m"]
+    hist, ref_saved, ref_returned = reference(cfg, seed, mode)
+    with tmpdir("wbmc_c11i_") as d:
+        run_segment(cfg, seed, hist, mode, d, cfg["N"], restart=False)
+        try:
+            returned, _ = run_segment(cfg, seed, hist, mode, d, m, restart=True, restart_iteration=k)
+        except Exception as e:
+            return ("restart_raises:" + type(e).__name__, f"restart_iteration={k} raised {type(e).__name__}: {e}"), []
+        saved = refine.load_saved(d)
+    bad = snapshots_consistent(cfg, seed)
+    if bad:
+        return bad, []
+    for it in range(k + 1, k + m + 1):
+        sc = max(np.abs(ref_saved[it]).max(), 1e-300)
+        err = np.abs(saved[it] - ref_saved[it]).max() / sc if it in saved else np.inf
+        if not err <= TOL:
+            return ("saved_result_differs", f"iteration {it} after restart_iteration={k}: {np.ravel(saved.get(it))} vs uninterrupted {np.ravel(ref_saved[it])} (rel {err:.3g})"), []
+    sc = max(np.abs(ref_saved[k + m]).max(), 1e-300)
+    err = np.abs(returned - ref_saved[k + m]).max() / sc
+    if not err <= TOL:
+        return ("returned_result_differs", f"returned after restart_iteration={k}, {m} iterations: {np.ravel(returned)} vs uninterrupted iteration {k + m} {np.ravel(ref_saved[k + m])} (rel {err:.3g})"), []
+    return None, []
 
 
 def execute(case, seed, chooser):
+    if "intermediate" in case:
+        return execute_intermediate(case, seed)
     cfg, mode, s, comp = case["cfg"], case["mode"], case["stop"], case["comp"]
     hist, ref_saved, ref_returned = reference(cfg, seed, mode)
     orders = []
@@ -144,6 +194,7 @@ def execute(case, seed, chooser):
             try:
                 returned, o = run_segment(cfg, seed, hist, mode, d, m, restart=True, chooser=chooser)
                 orders += o
+                bad = bad or snapshots_consistent(cfg, seed)
             except sched.Divergence:
                 raise
             except Exception as e:     # a restart that crashes is an observation
@@ -183,16 +234,21 @@ def run_case(case, seed):
     for choices, cost, (bad, orders), trace in gen:
         nexec += 1
         unsorted = any((o != sorted(o)) for o in orders if o and isinstance(o[0], int)) or any(c != 0 for c in choices)
-        if unsorted:
+        if "intermediate" in case:
+            unsorted = False
+            nontrivial.append(repr((case["cfg"]["sys"], case["cfg"]["N"], case["cfg"]["pick"], case["mode"], "restart_iteration", case["intermediate"], case["m"])))
+        elif unsorted:
             nontrivial.append(repr((case["cfg"]["sys"], case["cfg"]["N"], case["cfg"]["pick"], case["mode"], case["stop"], tuple(case["comp"]), orders)))
         if bad and first_bad is None:
             try:
                 exc_key = bad[0]
             except Exception:
                 exc_key = "unknown"
-            first_bad = {"ok": False, "key": f"restart:{exc_key}:{'listing_order' if unsorted else 'sorted_listing'}",
-                         "detail": f"cfg={case['cfg']} mode={case['mode']} stop after {case['stop']} then segments {case['comp']}, "
-                                   f"listing orders at the restarts {orders}: {bad[1]}",
+            where = (f"restart_iteration={case['intermediate']} for {case['m']} iterations after a finished run of {case['cfg']['N']}"
+                     if "intermediate" in case else f"stop after {case['stop']} then segments {case['comp']}, listing orders at the restarts {orders}")
+            kind = "intermediate_restart" if "intermediate" in case else ("listing_order" if unsorted else "sorted_listing")
+            first_bad = {"ok": False, "key": f"restart:{exc_key}:{kind}",
+                         "detail": f"cfg={case['cfg']} mode={case['mode']} {where}: {bad[1]}",
                          "replay_case": dict(case, schedule=list(choices))}
     res = first_bad or {"ok": True}
     res.update({"nontrivial": nontrivial, "obs": {"executions": nexec}, "outcome": "ok" if first_bad is None else first_bad["key"]})
